@@ -44,12 +44,38 @@ func load(r io.Reader, typ string) (map[string]any, error) {
 		err := decoder.Decode(&result)
 		return result, err
 	case "J":
+		// encoding/json delivers every number as float64 unless told otherwise; the conversion
+		// code expects integers to arrive as integers, which is what the YAML and TOML decoders do.
 		decoder := json.NewDecoder(r)
+		decoder.UseNumber()
 		err := decoder.Decode(&result)
+		convertJSONNumbers(result)
 		return result, err
 	default:
 		panic("shouldn't happen: bad filetype to load")
 	}
+}
+
+// convertJSONNumbers replaces (in place) every json.Number in a decoded JSON document with
+// an int64 if it was written as an integer, and with a float64 otherwise.
+func convertJSONNumbers(v any) any {
+	switch val := v.(type) {
+	case map[string]any:
+		for k, elt := range val {
+			val[k] = convertJSONNumbers(elt)
+		}
+	case []any:
+		for i, elt := range val {
+			val[i] = convertJSONNumbers(elt)
+		}
+	case json.Number:
+		if i, err := val.Int64(); err == nil {
+			return i
+		}
+		f, _ := val.Float64()
+		return f
+	}
+	return v
 }
 
 func getType(filename string) string {
